@@ -398,6 +398,14 @@ def sort_histories(rng, quick):
         ops = ['putstr %s %s' % (hexs(rng.choice(names)), hexs(b'%d' % i)) for i in range(n)]
         ops += ['sort', 'getmulti N 0', 'sort', 'putstr %s 7a' % hexs(rng.choice(names)), 'sort', 'walk N %d - 0' % (n + 3)]
         hists.append((fl, ops))
+        # a look-up, a sort (which moves contents between the nodes), then look-ups of every name with nothing linked in or out in between
+        ops2 = ops[:n]
+        for _r in range(3):
+            ops2 += ['getstr %s 0' % hexs(rng.choice(names)), 'sort']
+            for nm in rng.sample(names, min(len(names), 4)):
+                ops2 += [rng.choice(['getstr %s 0', 'getmulti %s 0', 'get %s 1']) % hexs(nm)]
+            ops2 += ['getmulti %s 1' % hexs(rng.choice(names)), 'putstr %s 7a7a' % hexs(rng.choice(names))]
+        hists.append((fl, ops2))
     return hists
 
 
